@@ -16,7 +16,7 @@ def ts_for(k):
 
 # the head of a dated line in other supported notations (the k-th instant as above); every one starts the line, so a
 # block boundary can fall inside any part of the timestamp.  NOTATION_TSLEN = bytes up to the end of the timestamp.
-NOTATIONS = ["iso", "rfc3339", "bracket", "epoch", "syslog_year", "level"]
+NOTATIONS = ["iso", "rfc3339", "bracket", "epoch", "syslog_year", "level", "leap"]
 MON = ["Jan", "Feb", "Mar", "Apr", "May", "Jun", "Jul", "Aug", "Sep", "Oct", "Nov", "Dec"]
 
 
@@ -34,6 +34,9 @@ def ts_head(k, notation="iso"):
         return b"2024 Jan %2d %02d:%02d:%02d host app:" % (d, h, m, s_)
     if notation == "level":
         return b"INFO 2024-01-%02d %02d:%02d:%02d" % (d, h, m, s_)
+    if notation == "leap":
+        # a leap second (seconds value 60): a legal timestamp, and the start of a message like any other
+        return b"2016-12-31 23:59:60.%03d" % (k % 1000)
     raise ValueError(notation)
 
 
